@@ -19,7 +19,8 @@
 //!   TR), load (A reads the slot cold), logs (200 receipts), flags ($flag/$of/$err/$ret
 //!   and registers set; reads them first), ldc (LDC extends the code), predtx (a
 //!   transaction with two predicate inputs: predicates checked on the instance's own
-//!   memory, then executed), peek (reads above $sp: panics on a clean stack),
+//!   memory, then executed), peek (reads above $sp: panics on a clean stack), bad-input
+//!   (an input contract that does not exist: `transact` returns an error after init),
 //!   small-heap / mem-read (ALOC + CFE and emit the *unwritten* memory by RETD/LOGD),
 //!   plus (interpreter model only) predicate-only actions: check / estimate /
 //!   into_checked_reusable_memory of 6 predicate transactions on the instance's memory.
@@ -117,6 +118,7 @@ use progkit::{
     A,
     B,
     C,
+    D,
 };
 use vcore::{
     bfs::{
@@ -332,6 +334,14 @@ fn script_pool() -> Vec<(&'static str, Vec<Instruction>, String)> {
         "peek",
         vec![op::lw(0x10, RegId::SP, 1000), op::ret(0x10)],
         "Revert(0)/Panic(UninitalizedMemoryAccess,None)".into(),
+    ));
+
+    // an input contract that does not exist: `transact` fails after initialisation
+    // (body only; the input is replaced in `Env::new`)
+    v.push((
+        "bad-input",
+        vec![op::ret(RegId::ONE)],
+        "Err(Panic(InputContractDoesNotExist".into(),
     ));
 
     // three allocations (reallocation / in-place paths), nothing written, all emitted
@@ -606,8 +616,17 @@ impl Env {
                         expect,
                     }
                 } else {
-                    let checked = world
-                        .tx(world.script_bytes(&body), GAS)
+                    let mut tx = world.tx(world.script_bytes(&body), GAS);
+                    if name == "bad-input" {
+                        for i in tx.inputs_mut() {
+                            if let Input::Contract(c) = i {
+                                if c.contract_id == B {
+                                    c.contract_id = D;
+                                }
+                            }
+                        }
+                    }
+                    let checked = tx
                         .into_checked_basic(BlockHeight::new(0), &world.params)
                         .expect("world tx must pass basic checks");
                     ScriptDef {
@@ -1162,14 +1181,16 @@ impl Env {
     }
 
     /// One transition = (history, target): returns (new-instance obs, reused obs, residue).
-    fn transition(&self, mode: Mode, hist: &[Act], target: Act) -> (Obs, Obs, Option<Residue>) {
+    /// For the interp model the new-instance observation is the one computed once in
+    /// `Env::new` (`fresh_of`), returned as `None` here to avoid copying it.
+    fn transition(&self, mode: Mode, hist: &[Act], target: Act) -> (Option<Obs>, Obs, Option<Residue>) {
         match mode {
             Mode::Interp => {
                 let mut vm = self.interp_after(hist);
                 *vm.as_mut() = self.baseline.clone();
                 let res = residue(&vm);
                 let reused = self.exec_interp(&mut vm, target);
-                (self.fresh_of(target).clone(), reused, Some(res))
+                (None, reused, Some(res))
             }
             Mode::Transactor => {
                 let mut t = Txr::new(MemoryInstance::new(), self.baseline.clone(), self.ip.clone());
@@ -1181,7 +1202,7 @@ impl Env {
                 let reused = self.exec_transactor(&mut t, target);
                 let mut f = Txr::new(MemoryInstance::new(), before, self.ip.clone());
                 let fresh = self.exec_transactor(&mut f, target);
-                (fresh, reused, Some(res))
+                (Some(fresh), reused, Some(res))
             }
             Mode::Client => {
                 let mut c = Client::new(MemoryInstance::new(), self.baseline.clone(), self.ip.clone());
@@ -1192,15 +1213,22 @@ impl Env {
                 let reused = self.exec_client(&mut c, target);
                 let mut f = Client::new(MemoryInstance::new(), before, self.ip.clone());
                 let fresh = self.exec_client(&mut f, target);
-                (fresh, reused, None)
+                (Some(fresh), reused, None)
             }
         }
     }
 
-    /// The shared oracle for one (history, target) pair. Returns the outcome class.
-    fn judge(&self, ctx: &Ctx, mode: Mode, hist: &[Act], target: Act) -> (String, Option<Residue>) {
+    /// The shared oracle for one (history, target) pair. Returns a summary of the run
+    /// on the reused instance (outcome class, receipt count, gas used).
+    fn judge(&self, ctx: &Ctx, mode: Mode, hist: &[Act], target: Act) -> (Summary, Option<Residue>) {
         let (fresh, reused, res) = self.transition(mode, hist, target);
-        if let Some((what, detail)) = diff(&fresh, &reused) {
+        let fresh: &Obs = match &fresh {
+            Some(f) => f,
+            None => self.fresh_of(target),
+        };
+        let d = diff(fresh, &reused);
+        let equal = d.is_none();
+        if let Some((what, detail)) = d {
             ctx.violation(
                 format!("C31:{}:{what}", self.name(target)),
                 format!(
@@ -1212,8 +1240,31 @@ impl Env {
                 json!({"mode": mode.s(), "history": self.names(hist), "target": self.name(target)}),
             );
         }
-        (reused.class(), res)
+        let gas_used = reused.receipts.iter().find_map(|r| match r {
+            Receipt::ScriptResult {
+                gas_used, ..
+            } => Some(*gas_used),
+            _ => None,
+        });
+        (
+            Summary {
+                class: reused.class(),
+                equal,
+                receipts: reused.receipts.len(),
+                gas_used,
+                predicates: reused.pre.as_ref().map(|p| format!("{:?}", p.check)),
+            },
+            res,
+        )
     }
+}
+
+struct Summary {
+    class: String,
+    equal: bool,
+    receipts: usize,
+    gas_used: Option<u64>,
+    predicates: Option<String>,
 }
 
 // ------------------------------------------------------------------ BFS model
@@ -1222,6 +1273,7 @@ impl Env {
 struct Acc {
     outcomes: BTreeMap<String, u64>,
     residues: BTreeMap<String, u64>,
+    samples: usize,
 }
 
 struct ReuseModel<'a> {
@@ -1244,7 +1296,8 @@ impl Model for ReuseModel<'_> {
     }
 
     fn step(&self, s: &Vec<Act>, a: &Act, _path: &[Act], ctx: &Ctx) -> Option<Vec<Act>> {
-        let (class, res) = self.env.judge(ctx, self.mode, s, *a);
+        let (sum, res) = self.env.judge(ctx, self.mode, s, *a);
+        let class = sum.class.clone();
         ctx.evals(1);
         if !s.is_empty() {
             match &res {
@@ -1275,19 +1328,23 @@ impl Model for ReuseModel<'_> {
                 bump("target ran on a used instance", !s.is_empty());
             }
         }
-        if s.len() >= 2 && ctx.want_sample() && matches!(a, Act::S(_)) && s[0] != s[1] && s[1] != *a {
-            // a few written-out real cases, spread by a cheap deterministic filter
-            let h = hash64(&(self.mode, s, *a));
-            if h % 97 == 0 {
+        // a few written-out real cases per model, picked by a deterministic filter
+        if s.len() >= 2 && s[0] != s[1] && s[1] != *a && hash64(&(self.mode, s, *a)) % 97 == 0 {
+            let take = {
+                let mut acc = self.acc.lock().unwrap();
+                acc.samples += 1;
+                acc.samples <= 2
+            };
+            if take {
                 ctx.sample(json!({
                     "model": self.mode.s(),
                     "history": self.env.names(s),
                     "target": self.env.name(*a),
-                    "outcome_on_reused_instance": class,
+                    "on_reused_instance": {"outcome": class, "receipts": sum.receipts, "gas_used": sum.gas_used, "predicates": sum.predicates},
                     "residue_before_target": res.as_ref().map(|r| json!({
                         "call_frames": r.frames, "receipts": r.receipts, "slot_cache_entries": r.cache,
                         "hp": r.hp, "sp": r.sp, "flag": r.flag, "of": r.of, "err": r.err})),
-                    "equal_to_new_instance": true,
+                    "equal_to_new_instance": sum.equal,
                 }));
             }
         }
